@@ -351,11 +351,22 @@ func rollbackKey(db *NoKV.DB, reader *Reader, key []byte, startTs uint64) *pb.Ke
 		}
 		return nil
 	}
-	if err := db.DeleteVersionedEntry(kv.CFLock, key, lockColumnTs); err != nil && err != utils.ErrKeyNotFound {
+	// Only the lock of this transaction may be removed: the key can carry the
+	// lock of another transaction (e.g. the one that made our prewrite fail),
+	// and only a prewritten put left data to clean up.
+	lock, err := reader.GetLock(key)
+	if err != nil {
 		return keyErrorRetryable(err)
 	}
-	if err := db.DeleteVersionedEntry(kv.CFDefault, key, startTs); err != nil && err != utils.ErrKeyNotFound {
-		return keyErrorRetryable(err)
+	if lock != nil && lock.Ts == startTs {
+		if err := db.DeleteVersionedEntry(kv.CFLock, key, lockColumnTs); err != nil && err != utils.ErrKeyNotFound {
+			return keyErrorRetryable(err)
+		}
+		if lock.Kind == pb.Mutation_Put {
+			if err := db.DeleteVersionedEntry(kv.CFDefault, key, startTs); err != nil && err != utils.ErrKeyNotFound {
+				return keyErrorRetryable(err)
+			}
+		}
 	}
 	rollback := EncodeWrite(Write{Kind: pb.Mutation_Rollback, StartTs: startTs})
 	if err := db.SetVersionedEntry(kv.CFWrite, key, startTs, rollback, 0); err != nil {
@@ -371,5 +382,6 @@ func isLockExpired(lock *Lock, currentTs uint64) bool {
 	if lock.TTL == 0 {
 		return false
 	}
-	return currentTs >= lock.Ts+lock.TTL
+	// currentTs >= lock.Ts+lock.TTL without wrapping around for huge TTLs.
+	return currentTs >= lock.Ts && currentTs-lock.Ts >= lock.TTL
 }
